@@ -42,7 +42,7 @@ var c06bScenarios = []c06bScenario{
 	{"near-item-and-far-item-race-prune", 33, [][]c05bOp{{{"f40", 30_000}}, {{"pal-far", 1000}}, {{"pal-near", 1000}}}, 0},
 }
 
-const c06bShards = 2
+const c06bShards = 8
 
 func c06bTasks() int { return len(c06bScenarios) * c06bShards }
 
